@@ -28,6 +28,7 @@ type c16Case struct {
 	Faults  []world.Fault `json:"faults,omitempty"`   // transient faults
 	FailMod string        `json:"fail_mod,omitempty"` // deterministic failure: this module ...
 	FailAt  uint64        `json:"fail_at,omitempty"`  // ... fails at this block
+	Limit   uint64        `json:"limit,omitempty"`    // tier2 refuses a call while Limit others are in flight (0 = no limit)
 }
 
 type c16Batch struct {
@@ -42,6 +43,9 @@ func genC16One(t *rapid.T) c16Case {
 	c.Run = genRun(t, c.Prog, c.Seg, c.Head)
 	c.Run.JobOrder = nil
 	c.Run.Workers = rapid.IntRange(1, 3).Draw(t, "c16workers")
+	if c.Run.Workers > 1 && rapid.IntRange(0, 2).Draw(t, "limited") == 0 {
+		c.Limit = uint64(rapid.IntRange(1, c.Run.Workers-1).Draw(t, "limit")) // fewer slots than workers: real overload rejections
+	}
 	// make sure something is back-filled: 2..4 segments below the hand-off
 	if c.Run.Stop == 0 || c.Run.Stop > c.Run.Start+3*c.Seg {
 		c.Run.Stop = c.Run.Start + rapid.Uint64Range(c.Seg, 3*c.Seg).Draw(t, "c16len")
@@ -130,7 +134,7 @@ func runC16(c c16Case, faults []world.Fault, failMod string, failAt uint64) (run
 		nb[failMod] = b
 		prog.Beh = nb
 	}
-	remote := &world.Remote{Faults: faults}
+	remote := &world.Remote{Faults: faults, Limit: c.Limit}
 	cfg := world.Config{Dir: dir, Seg: c.Seg, Workers: c.Run.Workers, Final: c.Run.Final, Steps: chainFor(c.Run, c.Head), Remote: remote, Timeout: 60 * time.Second}
 	var out runOut
 	out.res = world.Run(prog.Modules(), world.Request{Prod: c.Run.Prod, Start: int64(c.Run.Start), Stop: c.Run.Stop, Output: c.Run.Output}, cfg)
@@ -224,7 +228,7 @@ func firstLine(err error) string {
 
 func TestC16(t *testing.T) {
 	r := ev.Get("C16", "Faults")
-	r.Rule = "rapid, batches of 12 cases run concurrently (every retry sleeps >= 1 s in the real back-off): generated program + request with 2..4 back-filled segments on the real work.RemoteWorker over a fake gRPC client/stream pair in front of the exported Tier2Service.ProcessRange; transient plan = 1..3 faults (n-th call; error before the call, 'service currently overloaded', stream dropped after j messages with the server context cancelled, stream dropped after the job wrote its files): the request must complete and satisfy the C01 oracle; deterministic plan = a module of the graph panics at block k (half of the time with 1..2 transient faults on the first calls too): the request must end with an error mapped to invalid_argument, deliver only blocks < k equal to the sequential execution's, nothing after the error, and not retry for ever; non-trivial = a fault that hits after the job produced output, or k inside the back-filled part"
+	r.Rule = "rapid, batches of 12 cases run concurrently (every retry sleeps >= 1 s in the real back-off): generated program + request with 2..4 back-filled segments on the real work.RemoteWorker over a fake gRPC client/stream pair in front of the exported Tier2Service.ProcessRange; one case in three (when there are 2..3 workers) the tier2 service admits fewer concurrent calls than there are workers and turns the others down for real; transient plan = 1..3 faults (n-th call; error before the call, 'service currently overloaded', stream dropped after j messages with the server context cancelled, stream dropped after the job wrote its files): the request must complete and satisfy the C01 oracle; deterministic plan = a module of the graph panics at block k (half of the time with 1..2 transient faults on the first calls too): the request must end with an error mapped to invalid_argument, deliver only blocks < k equal to the sequential execution's, nothing after the error, and not retry for ever; non-trivial = a fault that hits after the job produced output, or k inside the back-filled part"
 	rapid.Check(t, func(rt *rapid.T) {
 		var batch c16Batch
 		n := 12
@@ -252,6 +256,9 @@ func TestC16(t *testing.T) {
 		wg.Wait()
 		for i, c := range batch.Cases {
 			cl := []string{fmt.Sprintf("prod=%v", c.Run.Prod)}
+			if c.Limit > 0 {
+				cl = append(cl, "tier2-with-fewer-slots-than-workers")
+			}
 			if c.FailMod != "" {
 				cl = append(cl, "deterministic")
 				if len(c.Faults) > 0 {
